@@ -7,7 +7,7 @@ From CliUtils Require Import Model.ObjSet Model.ActuationTable Model.PipelineTyp
      Proofs.ObjSetProofs Proofs.ActuationTableProofs Proofs.PipelineBase Proofs.PipelineAuth
      Corr.CorrPipeline Proofs.PipelineOrphansBase Proofs.PipelineOrphansSpec Proofs.PipelineOrphansInv
      Proofs.PipelineOrphansPlan Proofs.PipelineMonBase Proofs.PipelineOrphansRun Proofs.PipelineMonPack
-     Proofs.PipelineMonC04obsA.
+     Proofs.PipelineWaitFrame Proofs.PipelineMonC04obsA.
 Import ListNotations.
 
 Lemma o4_remove_In l x j : In j (remove Nat.eqb l x) -> In j l.
@@ -22,9 +22,12 @@ Qed.
 Section Wait.
   Variable sc : scenario.
   Variable aids : list id.
+  Variable Dn : list id.
   Variable ids : list id.
+  (* the objects of the apply set in this wait task are not among those whose wait is over *)
+  Hypothesis HID : forall i, In i ids -> In i aids -> ~ In i Dn.
 
-  Notation Inv := (o4_Inv aids).
+  Notation Inv := (o4_Inv aids Dn).
 
   (* what is known of every object of the wait task: AllCurrent - its record is
      not pending (the apply task ran just before); AllNotFound - it is no object
@@ -49,17 +52,18 @@ Section Wait.
   Qed.
 
   Lemma o4_ws_wev c s pend pend' g i rc w :
-    o4_WS c s pend ->
+    o4_WS c s pend -> (w = WOk -> In i ids) ->
     (w = WOk -> o4_jst c s i /\ (c = AllCurrent -> changed_uid s i = false /\ cond_met AllCurrent s i = true)) ->
     (forall j, In j pend' -> In j pend \/ (j = i /\ o4_jst c s i)) ->
     o4_WS c (ev (rec_reconcile s i rc) (EWait g i w)) pend'.
   Proof.
-    intros [I [S P]] J PP.
+    intros [I [S P]] HI J PP.
     destruct (o4_rec_reconcile_fields s i rc) as [_ [_ [_ EV]]].
     assert (EV' : forall j, tv (ev (rec_reconcile s i rc) (EWait g i w)) j = tv s j) by (intros j; exact (EV j)).
     split; [|split].
-    - apply o4_inv_wev; [|exact I]. intros -> Hi. destruct (J eq_refl) as [J1 J2]. destruct c; cbn in J1.
-      + destruct (J1 Hi) as [u E]. destruct (J2 eq_refl) as [CU CM]. exact (o4_wok_just aids s i u I Hi E CU CM).
+    - apply o4_inv_wev; [|exact I]. intros -> Hi. split; [exact (HID i (HI eq_refl) Hi)|].
+      destruct (J eq_refl) as [J1 J2]. destruct c; cbn in J1.
+      + destruct (J1 Hi) as [u E]. destruct (J2 eq_refl) as [CU CM]. exact (o4_wok_just aids Dn s i u I Hi E CU CM).
       + contradiction.
     - intros j Hj. eapply o4_side_tv; [exact EV'|exact (S j Hj)].
     - intros j Hj. eapply o4_jst_tv; [exact EV'|]. destruct (PP j Hj) as [H|[-> H]]; [exact (P j H)|exact H].
@@ -69,27 +73,27 @@ Section Wait.
     o4_WS c s pend -> w <> WOk -> o4_jst c s i -> (forall j, In j pend' -> In j pend \/ j = i) ->
     o4_WS c (ev (rec_reconcile s i rc) (EWait g i w)) pend'.
   Proof.
-    intros W NW J PP. apply (o4_ws_wev c s pend); [exact W|intros X; contradiction|].
+    intros W NW J PP. apply (o4_ws_wev c s pend); [exact W|intros X; contradiction|intros X; contradiction|].
     intros j Hj. destruct (PP j Hj) as [H|H]; [left; exact H|right; split; [exact H|exact J]].
   Qed.
 
   Lemma o4_ws_wok c s pend pend' g i :
-    o4_WS c s pend -> o4_jst c s i -> changed_uid s i = false -> cond_met c s i = true ->
+    o4_WS c s pend -> In i ids -> o4_jst c s i -> changed_uid s i = false -> cond_met c s i = true ->
     (forall j, In j pend' -> In j pend \/ j = i) ->
     o4_WS c (ev (rec_reconcile s i RSucceeded) (EWait g i WOk)) pend'.
   Proof.
-    intros W J CU CM PP. apply (o4_ws_wev c s pend); [exact W| |].
+    intros W HI J CU CM PP. apply (o4_ws_wev c s pend); [exact W|intros _; exact HI| |].
     - intros _. split; [exact J|]. intros ->. split; assumption.
     - intros j Hj. destruct (PP j Hj) as [H|H]; [left; exact H|right; split; [exact H|exact J]].
   Qed.
 
   Lemma o4_ws_hcu c s pend pend' g i :
-    o4_WS c s pend -> o4_jst c s i -> (forall j, In j pend' -> In j pend \/ j = i) ->
+    o4_WS c s pend -> In i ids -> o4_jst c s i -> (forall j, In j pend' -> In j pend \/ j = i) ->
     o4_WS c (handle_changed_uid c g s i) pend'.
   Proof.
-    intros W J PP. unfold handle_changed_uid. destruct c.
+    intros W HI J PP. unfold handle_changed_uid. destruct c.
     - apply (o4_ws_other AllCurrent s pend); [exact W|discriminate|exact J|exact PP].
-    - apply (o4_ws_wev AllNotFound s pend); [exact W| |].
+    - apply (o4_ws_wev AllNotFound s pend); [exact W|intros _; exact HI| |].
       + intros _. split; [exact J|discriminate].
       + intros j Hj. destruct (PP j Hj) as [H|H]; [left; exact H|right; split; [exact H|exact J]].
   Qed.
@@ -107,7 +111,7 @@ Section Wait.
       destruct acc as [s0 pend]. unfold stepf. cbn [fst snd] in *.
       assert (SM : forall j, In j pend -> In j pend \/ j = i) by (intros; left; assumption).
       destruct (w_skipped c s0 i) eqn:SK; cbn [fst snd].
-      - apply (o4_ws_wev c s0 pend); [exact WA|discriminate|intros j Hj; left; exact Hj].
+      - apply (o4_ws_wev c s0 pend); [exact WA|discriminate|discriminate|intros j Hj; left; exact Hj].
       - assert (J : o4_jst c s0 i) by (eapply o4_ws_jst; eassumption).
         destruct (changed_uid s0 i) eqn:CU; cbn [fst snd]; [apply (o4_ws_hcu c s0 pend); assumption|].
         destruct (cond_met c s0 i) eqn:CM; cbn [fst snd]; [apply (o4_ws_wok c s0 pend); assumption|].
@@ -161,7 +165,7 @@ Section Wait.
     assert (W3 : o4_WS c s3 (w_pending w)).
     { destruct W as [I [S P]].
       assert (TV : forall j, tv s3 j = tv s j) by (intros j; unfold s3, s2; destruct (o_status_events (sc_opts sc)); reflexivity).
-      split; [exact (o4_inv_deliv aids (o_status_events (sc_opts sc)) s d I)|].
+      split; [exact (o4_inv_deliv aids Dn (o_status_events (sc_opts sc)) s d I)|].
       split; [intros j Hj; eapply o4_side_tv; [exact TV|exact (S j Hj)]|].
       intros j Hj. eapply o4_jst_tv; [exact TV|exact (P j Hj)]. }
     destruct (memn (s_id d) ids) eqn:M.
@@ -206,6 +210,12 @@ Section Wait.
 End Wait.
 
 (* ---- tasks ------------------------------------------------------------------------------------------ *)
+Lemma o4_Inv_mono aids D D' s : incl D D' -> o4_Inv aids D s -> o4_Inv aids D' s.
+Proof.
+  intros I [V G T1 T2a T2g]. constructor; try assumption.
+  intros i Hi. apply V. intros X. apply Hi. apply I. exact X.
+Qed.
+
 Section Tasks.
   Variable sc : scenario.
   Variable pl : plan.
@@ -214,33 +224,39 @@ Section Tasks.
   Notation aids := (apply_ids pl).
   Notation Inv := (o4_Inv (apply_ids pl)).
   Notation gstep := (o4_gstep (apply_ids pl)).
+  Notation R := o4_R.
 
   Hypothesis DISJ : forall j, In j aids -> ~ In j (map p_id (pl_prune pl)).
   Hypothesis PL_local : forall p l, In p (pl_apply pl) -> p_local p = Some l -> l_id l = p_id p.
 
-  (* the shape of a task list the invariant can be carried through; `last` = the
-     ids of the apply task that has just run *)
-  Fixpoint o4_cwf (last : list id) (ts : list task) : Prop :=
+  (* the shape of a task list the invariant can be carried through; `done` = the ids of the wait
+     tasks that are over, `last` = the ids of the apply task that has just run *)
+  Fixpoint o4_cwf (done last : list id) (ts : list task) : Prop :=
     match ts with
     | [] => True
-    | TApply _ L :: r => Forall (o4_lok aids) L /\ o4_cwf (map p_id L) r
-    | TWait _ AllCurrent ids :: r => incl ids last /\ o4_cwf [] r
-    | TWait _ AllNotFound ids :: r => (forall i, In i ids -> ~ In i aids) /\ o4_cwf [] r
-    | TPrune _ L :: r => Forall (prune_ok pl) L /\ o4_cwf [] r
-    | _ :: r => o4_cwf [] r
+    | TApply _ L :: r => Forall (o4_lok aids pl) L /\ (forall i, In i (map p_id L) -> ~ In i done) /\ o4_cwf done (map p_id L) r
+    | TWait _ AllCurrent ids :: r => incl ids last /\ o4_cwf (ids ++ done) [] r
+    | TWait _ AllNotFound ids :: r => (forall i, In i ids -> ~ In i aids) /\ o4_cwf (ids ++ done) [] r
+    | TPrune _ L :: r => Forall (prune_ok pl) L /\ o4_cwf done [] r
+    | _ :: r => o4_cwf done [] r
     end.
   Definition o4_last_of (t : task) : list id := match t with TApply _ L => map p_id L | _ => [] end.
+  Definition o4_done_of (done : list id) (t : task) : list id := match t with TWait _ _ ids => ids ++ done | _ => done end.
 
-  Lemma o4_inv_ev s e : o4_nwok (IEv e) -> Inv s -> Inv (ev s e).
+  Lemma o4_inv_ev D s e : o4_nwok (IEv e) -> Inv D s -> Inv D (ev s e).
   Proof. intros H. apply o4_inv_gstep. apply o4_gstep_ev. exact H. Qed.
 
-  Lemma o4_inv_apply_task g L : Forall (o4_lok aids) L -> forall s, Inv s -> Inv (apply_task sc pl g s L).
+  Lemma o4_R_same D s s' : r_tbl s' = r_tbl s -> R D s -> R D s'.
+  Proof. intros E H i Hi. unfold rc. rewrite E. exact (H i Hi). Qed.
+
+  Lemma o4_inv_apply_task D g L : Forall (o4_lok aids pl) L -> forall s, R D s -> Inv D s ->
+    Inv D (apply_task sc pl g s L) /\ R D (apply_task sc pl g s L).
   Proof.
-    unfold apply_task. induction 1 as [|p L Hp _ IH]; intros s I; cbn [fold_left]; [exact I|].
-    apply IH. apply o4_inv_apply_one; assumption.
+    unfold apply_task. induction 1 as [|p L Hp _ IH]; intros s HR I; cbn [fold_left]; [split; assumption|].
+    apply IH; [apply (o4_R_apply_one sc aids D HD); assumption|apply (o4_inv_apply_one sc aids D HD); assumption].
   Qed.
 
-  Lemma o4_npend_apply_task g L j : Forall (o4_lok aids) L -> forall s,
+  Lemma o4_npend_apply_task g L j : Forall (o4_lok aids pl) L -> forall s,
     (In j (map p_id L) \/ o4_npend s j) -> o4_npend (apply_task sc pl g s L) j.
   Proof.
     unfold apply_task. induction 1 as [|p L Hp _ IH]; intros s H; cbn [fold_left].
@@ -261,67 +277,121 @@ Section Tasks.
     apply in_map_iff. exists (pobj_of_live c). split; [reflexivity|exact Hc].
   Qed.
 
-  Lemma o4_run_task locals prev last s t rest :
-    o4_cwf last (t :: rest) -> Inv s -> (forall i, In i last -> o4_npend s i) ->
-    Inv (fst (run_task sc pl locals prev s t)) /\
-    (forall i, In i (o4_last_of t) -> o4_npend (fst (run_task sc pl locals prev s t)) i) /\
-    o4_cwf (o4_last_of t) rest.
+  (* a prune task sets the reconcile field of its objects to Pending *)
+  Lemma o4_R_prune_one D locals g uids s p : R D s -> R D (prune_one sc pl locals g uids s p).
   Proof.
-    intros W I NP. unfold run_task. cbv zeta.
-    assert (I0 : Inv (ev s (EStarted (task_name t)))) by (apply o4_inv_ev; [exact Logic.I|exact I]).
-    assert (NP0 : forall i, In i last -> o4_npend (ev s (EStarted (task_name t))) i).
-    { intros i Hi. apply (o4_tv_same_npend s); [intros j; reflexivity|exact (NP i Hi)]. }
-    destruct t as [|k L|k c ids|k L|]; cbn [o4_cwf o4_last_of] in *.
-    - pose proof (o4_g_inv_add_task sc aids HD pl (ev s (EStarted (task_name TInvAdd))) PL_local) as T.
-      destruct (inv_add_task sc pl _) as [s1 ok]. cbn [fst] in *.
-      split; [apply o4_inv_ev; [exact Logic.I|]; exact (o4_inv_gstep aids _ _ T I0)|]. split; [intros i []|exact W].
-    - destruct W as [WL W]. cbn [fst].
-      split; [apply o4_inv_ev; [exact Logic.I|]; apply o4_inv_apply_task; assumption|]. split; [|exact W].
-      intros i Hi. eapply o4_tv_same_npend; [intros j; reflexivity|].
-      apply o4_npend_apply_task; [exact WL|left; exact Hi].
-    - cbn [fst]. destruct c; destruct W as [WW W].
-      + split; [|split; [intros i []|exact W]]. apply o4_inv_ev; [exact Logic.I|]. apply o4_inv_wait_task.
-        split; [exact I0|]. split; [|intros i []]. intros i Hi. cbn. apply NP0. apply WW. exact Hi.
-      + split; [|split; [intros i []|exact W]]. apply o4_inv_ev; [exact Logic.I|]. apply o4_inv_wait_task.
-        split; [exact I0|]. split; [|intros i []]. intros i Hi. cbn. apply WW. exact Hi.
-    - destruct W as [WL W]. cbn [fst].
-      split; [|split; [intros i []|exact W]]. apply o4_inv_ev; [exact Logic.I|].
-      exact (o4_inv_gstep aids _ _ (o4_g_prune_task locals _ _ L WL) I0).
-    - pose proof (o4_g_inv_set_task sc aids HD pl prev (ev s (EStarted (task_name TInvSet)))) as T.
-      destruct (inv_set_task sc pl prev _) as [s1 ok]. cbn [fst] in *.
-      split; [apply o4_inv_ev; [exact Logic.I|]; exact (o4_inv_gstep aids _ _ T I0)|]. split; [intros i []|exact W].
+    intros H. destruct (p_live p) as [c|] eqn:EL.
+    - assert (E : prune_one sc pl locals g uids s p = prune_one sc pl locals g uids s (pobj_of_live c))
+        by (unfold prune_one; cbn [p_live pobj_of_live]; rewrite EL; reflexivity).
+      rewrite E. destruct (prune_one_spec sc pl locals g uids s c) as [a [u [ab [lt [ET _]]]]]. cbv zeta in ET.
+      intros i Hi. unfold rc. rewrite ET, rcl_set_status. cbn [r_id r_rec].
+      destruct (Nat.eqb (c_id c) i); [discriminate|exact (H i Hi)].
+    - unfold prune_one. rewrite EL. exact H.
+  Qed.
+  Lemma o4_R_prune_task D locals g L : forall s, R D s -> R D (prune_task sc pl locals g s L).
+  Proof.
+    unfold prune_task. intros s. generalize (applied_uids (r_tbl s)). intros uids. revert s.
+    induction L as [|p L IH]; intros s H; cbn [fold_left]; [exact H|]. apply IH. apply o4_R_prune_one. exact H.
   Qed.
 
-  Lemma o4_run_tasks locals prev ts : forall last s,
-    o4_cwf last ts -> Inv s -> (forall i, In i last -> o4_npend s i) ->
-    Inv (run_tasks sc pl locals prev s ts).
+  Lemma o4_run_task locals prev D last s t rest :
+    o4_cwf D last (t :: rest) -> Inv D s -> R D s -> (forall i, In i last -> o4_npend s i) ->
+    (forall i, In i last -> ~ In i D) ->
+    let s' := fst (run_task sc pl locals prev s t) in
+    let D' := o4_done_of D t in
+    Inv D' s' /\ R D' s' /\
+    (forall i, In i (o4_last_of t) -> o4_npend s' i) /\
+    (forall i, In i (o4_last_of t) -> ~ In i D') /\
+    o4_cwf D' (o4_last_of t) rest.
   Proof.
-    induction ts as [|t rest IH]; intros last s W I NP; cbn [run_tasks]; [exact I|].
-    destruct (o4_run_task locals prev last s t rest W I NP) as [I1 [N1 W1]].
+    intros W I HR NP LD. cbv zeta. unfold run_task. cbv zeta.
+    assert (I0 : Inv D (ev s (EStarted (task_name t)))) by (apply o4_inv_ev; [exact Logic.I|exact I]).
+    assert (R0 : R D (ev s (EStarted (task_name t)))) by (apply (o4_R_same D s); [reflexivity|exact HR]).
+    assert (NP0 : forall i, In i last -> o4_npend (ev s (EStarted (task_name t))) i).
+    { intros i Hi. apply (o4_tv_same_npend s); [intros j; reflexivity|exact (NP i Hi)]. }
+    assert (FIN : forall DD s1, Inv DD s1 -> R DD s1 ->
+              Inv DD (ev s1 (EFinished (task_name t))) /\ R DD (ev s1 (EFinished (task_name t)))).
+    { intros DD s1 A B. split; [apply o4_inv_ev; [exact Logic.I|exact A]|apply (o4_R_same DD s1); [reflexivity|exact B]]. }
+    destruct t as [|k L|k c ids|k L|]; cbn [o4_cwf o4_last_of o4_done_of] in *.
+    - pose proof (o4_g_inv_add_task sc aids HD pl (ev s (EStarted (task_name TInvAdd))) PL_local) as T.
+      destruct (inv_add_task_spec sc pl (ev s (EStarted (task_name TInvAdd))) PL_local) as [ET _].
+      destruct (inv_add_task sc pl _) as [s1 ok]. cbn [fst snd] in *.
+      destruct (FIN D s1 (o4_inv_gstep aids D _ _ T I0) (o4_R_same D _ _ ET R0)) as [A B].
+      split; [exact A|]. split; [exact B|]. split; [intros i []|]. split; [intros i []|exact W].
+    - destruct W as [WL [WD W]]. cbn [fst].
+      destruct (o4_inv_apply_task D (task_name (TApply k L)) L WL _ R0 I0) as [A B].
+      destruct (FIN D _ A B) as [A' B'].
+      split; [exact A'|]. split; [exact B'|]. split; [|split; [exact WD|exact W]].
+      intros i Hi. eapply o4_tv_same_npend; [intros j; reflexivity|].
+      apply o4_npend_apply_task; [exact WL|left; exact Hi].
+    - cbn [fst].
+      assert (MONO : incl D (ids ++ D)) by (intros x Hx; apply in_or_app; right; exact Hx).
+      assert (ROUT : R (ids ++ D) (wait_task sc c (task_name (TWait k c ids)) ids (ev s (EStarted (task_name (TWait k c ids)))))).
+      { intros i Hi. rewrite (wait_task_rc_out sc i c _ ids _); [|intros X; apply Hi; apply in_or_app; left; exact X].
+        apply R0. intros X. apply Hi. apply in_or_app. right. exact X. }
+      destruct c; destruct W as [WW W].
+      + assert (HID : forall i, In i ids -> In i aids -> ~ In i D) by (intros i Hi _; apply LD; apply WW; exact Hi).
+        assert (A : Inv D (wait_task sc AllCurrent (task_name (TWait k AllCurrent ids)) ids (ev s (EStarted (task_name (TWait k AllCurrent ids)))))).
+        { apply (o4_inv_wait_task sc aids D ids HID). split; [exact I0|]. split; [|intros i []].
+          intros i Hi. cbn. apply NP0. apply WW. exact Hi. }
+        destruct (FIN (ids ++ D) _ (o4_Inv_mono aids D _ _ MONO A) ROUT) as [A' B'].
+        split; [exact A'|]. split; [exact B'|]. split; [intros i []|]. split; [intros i []|exact W].
+      + assert (HID : forall i, In i ids -> In i aids -> ~ In i D) by (intros i Hi Ha; exfalso; exact (WW i Hi Ha)).
+        assert (A : Inv D (wait_task sc AllNotFound (task_name (TWait k AllNotFound ids)) ids (ev s (EStarted (task_name (TWait k AllNotFound ids)))))).
+        { apply (o4_inv_wait_task sc aids D ids HID). split; [exact I0|]. split; [|intros i []].
+          intros i Hi. cbn. apply WW. exact Hi. }
+        destruct (FIN (ids ++ D) _ (o4_Inv_mono aids D _ _ MONO A) ROUT) as [A' B'].
+        split; [exact A'|]. split; [exact B'|]. split; [intros i []|]. split; [intros i []|exact W].
+    - destruct W as [WL W]. cbn [fst].
+      destruct (FIN D _ (o4_inv_gstep aids D _ _ (o4_g_prune_task locals _ _ L WL) I0)
+                  (o4_R_prune_task D locals (task_name (TPrune k L)) L _ R0)) as [A B].
+      split; [exact A|]. split; [exact B|]. split; [intros i []|]. split; [intros i []|exact W].
+    - pose proof (o4_g_inv_set_task sc aids HD pl prev (ev s (EStarted (task_name TInvSet)))) as T.
+      destruct (inv_set_task_spec sc pl prev (ev s (EStarted (task_name TInvSet)))) as [ET _]. cbv zeta in ET.
+      destruct (inv_set_task sc pl prev _) as [s1 ok]. cbn [fst snd] in *.
+      destruct (FIN D s1 (o4_inv_gstep aids D _ _ T I0) (o4_R_same D _ _ ET R0)) as [A B].
+      split; [exact A|]. split; [exact B|]. split; [intros i []|]. split; [intros i []|exact W].
+  Qed.
+
+  Lemma o4_run_tasks locals prev ts : forall D last s,
+    o4_cwf D last ts -> Inv D s -> R D s -> (forall i, In i last -> o4_npend s i) -> (forall i, In i last -> ~ In i D) ->
+    exists D', Inv D' (run_tasks sc pl locals prev s ts).
+  Proof.
+    induction ts as [|t rest IH]; intros D last s W I HR NP LD; cbn [run_tasks]; [exists D; exact I|].
+    destruct (o4_run_task locals prev D last s t rest W I HR NP LD) as [I1 [R1 [N1 [L1 W1]]]]. cbv zeta in *.
     destruct (run_task sc pl locals prev s t) as [s1 ok]. cbn [fst] in *.
-    destruct (negb ok); [apply o4_inv_ev; [exact Logic.I|exact I1]|].
-    destruct (r_abort s1); [apply o4_inv_ev; [exact Logic.I|exact I1]|].
-    exact (IH _ s1 W1 I1 N1).
+    destruct (negb ok); [exists (o4_done_of D t); apply o4_inv_ev; [exact Logic.I|exact I1]|].
+    destruct (r_abort s1); [exists (o4_done_of D t); apply o4_inv_ev; [exact Logic.I|exact I1]|].
+    exact (IH _ _ s1 W1 I1 R1 N1 L1).
   Qed.
 
   (* ---- the task list of a plan ----------------------------------------------------------------------- *)
-  Lemma o4_cwf_apply_tasks layers : (forall layer p, In layer layers -> In p layer -> o4_lok aids p) ->
-    forall ka kw rest, o4_cwf [] rest -> o4_cwf [] (fst (apply_tasks sc ka kw layers) ++ rest).
+  Lemma o4_cwf_apply_tasks layers : (forall layer p, In layer layers -> In p layer -> o4_lok aids pl p) ->
+    forall ka kw rest done, NoDup (map p_id (concat layers)) ->
+      (forall i, In i (map p_id (concat layers)) -> ~ In i done) ->
+      (forall done', o4_cwf done' [] rest) ->
+      o4_cwf done [] (fst (apply_tasks sc ka kw layers) ++ rest).
   Proof.
-    induction layers as [|l t IH]; intros H ka kw rest HR; cbn [apply_tasks]; [exact HR|].
-    assert (Hl : Forall (o4_lok aids) l)
+    induction layers as [|l t IH]; intros H ka kw rest done ND NI HR; cbn [apply_tasks]; [apply HR|].
+    assert (Hl : Forall (o4_lok aids pl) l)
       by (apply Forall_forall; intros p Hp; eapply H; [left; reflexivity|exact Hp]).
-    assert (Ht : forall layer p, In layer t -> In p layer -> o4_lok aids p)
+    assert (Ht : forall layer p, In layer t -> In p layer -> o4_lok aids pl p)
       by (intros; eapply H; [right; eassumption|assumption]).
-    rewrite HD. specialize (IH Ht (S ka) (S kw) rest HR).
+    cbn [concat] in ND, NI. rewrite map_app in ND, NI. apply NoDup_app_elim in ND. destruct ND as [N1 [N2 DJ]].
+    rewrite HD.
+    assert (NI' : forall i, In i (map p_id (concat t)) -> ~ In i (map p_id l ++ done)).
+    { intros i Hi X. apply in_app_or in X. destruct X as [X|X]; [exact (DJ i X Hi)|].
+      apply (NI i); [apply in_or_app; right; exact Hi|exact X]. }
+    specialize (IH Ht (S ka) (S kw) rest (map p_id l ++ done) N2 NI' HR).
     destruct (apply_tasks sc (S ka) (S kw) t) as [ts kw']. cbn [fst app o4_cwf] in *.
-    split; [exact Hl|]. split; [apply incl_refl|exact IH].
+    split; [exact Hl|]. split; [intros i Hi; apply NI; apply in_or_app; left; exact Hi|].
+    split; [apply incl_refl|exact IH].
   Qed.
 
   Lemma o4_cwf_prune_tasks layers : (forall layer p, In layer layers -> In p layer -> prune_ok pl p) ->
-    forall kp kw rest, o4_cwf [] rest -> o4_cwf [] (prune_tasks sc kp kw layers ++ rest).
+    forall kp kw rest, (forall done', o4_cwf done' [] rest) -> forall done, o4_cwf done [] (prune_tasks sc kp kw layers ++ rest).
   Proof.
-    induction layers as [|l t IH]; intros H kp kw rest HR; cbn [prune_tasks]; [exact HR|].
+    induction layers as [|l t IH]; intros H kp kw rest HR done; cbn [prune_tasks]; [apply HR|].
     assert (Hl : Forall (prune_ok pl) l)
       by (apply Forall_forall; intros p Hp; eapply H; [left; reflexivity|exact Hp]).
     assert (Ht : forall layer p, In layer t -> In p layer -> prune_ok pl p)
@@ -333,18 +403,19 @@ Section Tasks.
   Qed.
 
   Lemma o4_cwf_tasks_of :
-    (forall layer p, In layer (pl_apply_layers pl) -> In p layer -> o4_lok aids p) ->
+    (forall layer p, In layer (pl_apply_layers pl) -> In p layer -> o4_lok aids pl p) ->
     (forall layer p, In layer (pl_prune_layers pl) -> In p layer -> prune_ok pl p) ->
-    o4_cwf [] (tasks_of sc pl).
+    NoDup (map p_id (concat (pl_apply_layers pl))) ->
+    o4_cwf [] [] (tasks_of sc pl).
   Proof.
-    intros LOK POK. unfold tasks_of.
-    assert (A : forall rest, o4_cwf [] rest ->
-              o4_cwf [] (fst (match pl_apply pl with [] => ([], 0) | _ => apply_tasks sc 0 0 (pl_apply_layers pl) end) ++ rest)).
-    { intros rest HR. destruct (pl_apply pl); [exact HR|]. apply o4_cwf_apply_tasks; assumption. }
+    intros LOK POK ND. unfold tasks_of.
+    assert (A : forall rest, (forall done', o4_cwf done' [] rest) ->
+              o4_cwf [] [] (fst (match pl_apply pl with [] => ([], 0) | _ => apply_tasks sc 0 0 (pl_apply_layers pl) end) ++ rest)).
+    { intros rest HR. destruct (pl_apply pl); [apply HR|]. apply o4_cwf_apply_tasks; try assumption. intros i _ []. }
     destruct (match pl_apply pl with [] => ([], 0) | _ => apply_tasks sc 0 0 (pl_apply_layers pl) end) as [at_ kw].
     cbn [fst] in A.
-    assert (B : o4_cwf [] ((if o_prune (sc_opts sc) then match pl_prune pl with [] => [] | _ => prune_tasks sc 0 kw (pl_prune_layers pl) end else []) ++ [TInvSet])).
-    { pose proof (o4_cwf_prune_tasks (pl_prune_layers pl) POK 0 kw [TInvSet] Logic.I) as PT.
+    assert (B : forall done', o4_cwf done' [] ((if o_prune (sc_opts sc) then match pl_prune pl with [] => [] | _ => prune_tasks sc 0 kw (pl_prune_layers pl) end else []) ++ [TInvSet])).
+    { intros done'. pose proof (o4_cwf_prune_tasks (pl_prune_layers pl) POK 0 kw [TInvSet] (fun _ => Logic.I) done') as PT.
       destruct (o_prune (sc_opts sc)); [|exact I]. destruct (pl_prune pl); [exact I|exact PT]. }
     destruct (o_destroy (sc_opts sc)); cbn [app o4_cwf]; apply A; exact B.
   Qed.
@@ -374,21 +445,44 @@ Section Run.
     cbn in E. injection E as <-. reflexivity.
   Qed.
 
-  Lemma o4_plan_cwf : o4_cwf pl [] (tasks_of sc pl).
+  Lemma o4_plan_cwf : o4_cwf pl [] [] (tasks_of sc pl).
   Proof.
+    pose proof (locals_of_NoDup sc (WF_locals_nodup sc c0 HWF)) as NL.
     apply (o4_cwf_tasks_of sc pl HD o4_plan_disj o4_plan_local).
-    - rewrite plan_of_eq. intros layer p HL Hp. exact (bp_local_ok' sc _ _ _ layer p HL Hp).
+    - rewrite plan_of_eq. intros layer p HL Hp.
+      exact (bp_local_ok' sc _ _ _ NL (pobjs_NoDup sc c0) (pobjs_disj sc c0) layer p HL Hp).
     - rewrite plan_of_eq. intros layer p HL Hp. exact (bp_prune_ok sc _ _ _ layer p HL Hp).
+    - destruct (plan_layers sc c0 (WF_locals_nodup sc c0 HWF)) as [N _].
+      apply NoDup_app_elim in N. exact (proj1 N).
   Qed.
 
   (* the start state of the task list *)
-  Lemma o4_inv_start s4 : start_ok sc c0 s4 -> o4_Inv aids s4.
+  (* registration leaves every reconcile field Pending *)
+  Lemma o4_R_start s4 : start_ok sc c0 s4 -> o4_R [] s4.
+  Proof.
+    intros [_ _ _ _ _ [s2 [E2 E4]]] i _. unfold rc. rewrite E4.
+    assert (F : forall (l : list pobj) st a s0, (forall j, rcl (r_tbl s0) j <> Some RSucceeded) ->
+              forall j, rcl (r_tbl (fold_left (fun s p => rec_add s (p_id p) st a 0%N 0%Z) l s0)) j <> Some RSucceeded).
+    { induction l as [|q t IH]; intros st a s0 H j; cbn [fold_left]; [apply H|]. apply IH.
+      intros k. cbn [rec_add set_tbl r_tbl]. rewrite rcl_set_status. cbn [r_id r_rec].
+      destruct (Nat.eqb (p_id q) k); [discriminate|apply H]. }
+    assert (Z : forall j, rcl (r_tbl s2) j <> Some RSucceeded) by (intros j; rewrite E2; discriminate).
+    unfold register.
+    pose proof (F (pl_apply pl) SApply APending s2 Z) as F1.
+    set (s1 := fold_left (fun s p => rec_add s (p_id p) SApply APending 0%N 0%Z) (pl_apply pl) s2) in *.
+    assert (F2 : forall j, rcl (r_tbl (if o_prune (sc_opts sc)
+                   then fold_left (fun s p => rec_add s (p_id p) SDelete APending 0%N 0%Z) (pl_prune pl) s1 else s1)) j <> Some RSucceeded).
+    { destruct (o_prune (sc_opts sc)); [apply F; exact F1|exact F1]. }
+    destruct (negb (o_destroy (sc_opts sc)) && negb (o_prune (sc_opts sc))); [apply F; exact F2|apply F2].
+  Qed.
+
+  Lemma o4_inv_start s4 : start_ok sc c0 s4 -> o4_Inv aids [] s4.
   Proof.
     intros [SC ST _ _ SK [s2 [E2 E4]]].
     destruct (register_spec sc pl s2 E2) as [_ [_ [_ [_ TV]]]]. cbv zeta in TV.
     assert (TV4 : forall j, tv s4 j = tv (register sc pl s2) j) by (intros j; unfold tv; rewrite E4; reflexivity).
     constructor.
-    - unfold o4_V. rewrite SK, ST. reflexivity.
+    - unfold o4_V. intros i _. rewrite SK, ST. reflexivity.
     - intros l1 g e l2 E. rewrite ST in E. destruct l1; discriminate E.
     - intros e He. rewrite TV4, TV.
       assert (X : forall q, In e (map p_id q) -> In e (map p_id (pl_prune pl)) -> False)
@@ -415,9 +509,18 @@ Section Run.
       destruct (memn e aids); [injection X as _ X2 _; unfold id in *; congruence|discriminate].
   Qed.
 
-  Lemma o4_inv_pre_tasks s : o4_Inv aids s -> o4_Inv aids (pre_tasks sc c0 s).
+  Lemma o4_R_pre_tasks s : o4_R [] s -> o4_R [] (pre_tasks sc c0 s).
   Proof.
-    intros I. unfold pre_tasks. apply (o4_inv_gstep (apply_ids (plan_of sc c0)) s); [|exact I].
+    intros H. unfold pre_tasks.
+    assert (E : r_tbl (ev (fold_left (fun s e => ev s (EValidation (sortn e))) (pl_valerrs pl) s) (init_ev sc c0)) = r_tbl s).
+    { cbn [ev emit r_tbl]. generalize (pl_valerrs pl). intros l. revert s H. induction l as [|e t IH]; intros s H; cbn [fold_left]; [reflexivity|].
+      rewrite IH; [reflexivity|]. exact H. }
+    intros i Hi. unfold rc. rewrite E. exact (H i Hi).
+  Qed.
+
+  Lemma o4_inv_pre_tasks s : o4_Inv aids [] s -> o4_Inv aids [] (pre_tasks sc c0 s).
+  Proof.
+    intros I. unfold pre_tasks. apply (o4_inv_gstep (apply_ids (plan_of sc c0)) [] s); [|exact I].
     eapply o4_gstep_trans; [|apply o4_gstep_ev; exact Logic.I].
     apply o4_gstep_fold. intros s0 e _. apply o4_gstep_ev. exact Logic.I.
   Qed.
@@ -431,10 +534,12 @@ Section Run.
     destruct (run_state_shape sc c0) as [s C T|s C T _ _|s4 SO _ _|s4 prev SO _ _ _].
     - exact (ERR s T).
     - exact (ERR s T).
-    - apply (o4_iG aids). apply o4_inv_gstep with (s := pre_tasks sc c0 s4); [apply o4_gstep_ev; exact I|].
+    - apply (o4_iG aids []). apply o4_inv_gstep with (s := pre_tasks sc c0 s4); [apply o4_gstep_ev; exact I|].
       apply o4_inv_pre_tasks. apply o4_inv_start. exact SO.
-    - apply (o4_iG aids).
-      apply (o4_run_tasks sc pl HD o4_plan_disj o4_plan_local (locals_of sc) prev (tasks_of sc pl) []);
-        [exact o4_plan_cwf|apply o4_inv_pre_tasks; apply o4_inv_start; exact SO|intros i []].
+    - destruct (o4_run_tasks sc pl HD o4_plan_disj o4_plan_local (locals_of sc) prev (tasks_of sc pl) [] [] (pre_tasks sc c0 s4))
+        as [D' ID'];
+        [exact o4_plan_cwf|apply o4_inv_pre_tasks; apply o4_inv_start; exact SO
+        |apply o4_R_pre_tasks; apply o4_R_start; exact SO|intros i []|intros i []|].
+      exact (o4_iG aids D' _ ID').
   Qed.
 End Run.
